@@ -9,35 +9,38 @@ import (
 )
 
 type HarnessCfg struct {
-	Name            string             `json:"name"`
-	Pkg             string             `json:"pkg"`
-	Func            string             `json:"func"`
-	Mode            string             `json:"mode"`
-	BoundsQ         map[string]int     `json:"bounds_quick"`
-	BoundsT         map[string]int     `json:"bounds_thorough"`
-	Unwind          int                `json:"unwind"`
-	UnwindConcrete  int                `json:"unwind_concrete"`
-	MaxSteps        int64              `json:"max_steps"`
-	MaxAlloc        int                `json:"max_alloc"`
-	MaxThreads      int                `json:"max_threads"`
-	TimeoutS        map[string]float64 `json:"timeout_s"`
-	MapOrder        string             `json:"map_order"`
-	Sched           string             `json:"sched"`
-	Race            bool               `json:"race"`
-	RealLimit       float64            `json:"real_limit"`
-	NearEps         float64            `json:"near_eps"`
-	Reach           []string           `json:"reach"`
-	MaxPaths        int                `json:"max_paths"`
-	Panics          string             `json:"panics"` // runtime (default) | any | none
-	Tiers           []string           `json:"tiers"`  // default both
-	Note            string             `json:"note"`
-	Shrink          []string           `json:"shrink"` // names of shrink overlays this harness relies on (informational)
-	ShrinkSet       string             `json:"shrink_set"` // named alternative shrink overlay list of the spec
-	MaxWallS        float64            `json:"max_wall_s"` // wall-clock budget of the harness (default 900 s quick / 3600 s thorough); paths left over = inconclusive
-	Workers         int                `json:"workers"`
-	Preemptions     int                `json:"preemptions"`         // sched=all: bound on preemptive context switches per path (default 2)
-	MinMaxIte       bool               `json:"minmax_ite"`          // math mode: encode min/max/abs as ite terms instead of forking (linear harnesses)
-	UnwindViolation bool               `json:"unwind_is_violation"` // termination is part of the property (C14)
+	Name             string             `json:"name"`
+	Pkg              string             `json:"pkg"`
+	Func             string             `json:"func"`
+	Mode             string             `json:"mode"`
+	BoundsQ          map[string]int     `json:"bounds_quick"`
+	BoundsT          map[string]int     `json:"bounds_thorough"`
+	Unwind           int                `json:"unwind"`
+	UnwindConcrete   int                `json:"unwind_concrete"`
+	MaxSteps         int64              `json:"max_steps"`
+	MaxAlloc         int                `json:"max_alloc"`
+	MaxThreads       int                `json:"max_threads"`
+	TimeoutS         map[string]float64 `json:"timeout_s"`
+	MapOrder         string             `json:"map_order"`
+	Sched            string             `json:"sched"`
+	Race             bool               `json:"race"`
+	RealLimit        float64            `json:"real_limit"`
+	NoRealIntervals  bool               `json:"no_real_intervals"`
+	PolyConfirmEvery int                `json:"poly_confirm_every"`
+	NaNPoison        bool               `json:"nan_poison"`
+	NearEps          float64            `json:"near_eps"`
+	Reach            []string           `json:"reach"`
+	MaxPaths         int                `json:"max_paths"`
+	Panics           string             `json:"panics"` // runtime (default) | any | none
+	Tiers            []string           `json:"tiers"`  // default both
+	Note             string             `json:"note"`
+	Shrink           []string           `json:"shrink"`     // names of shrink overlays this harness relies on (informational)
+	ShrinkSet        string             `json:"shrink_set"` // named alternative shrink overlay list of the spec
+	MaxWallS         float64            `json:"max_wall_s"` // wall-clock budget of the harness (default 900 s quick / 3600 s thorough); paths left over = inconclusive
+	Workers          int                `json:"workers"`
+	Preemptions      int                `json:"preemptions"`         // sched=all: bound on preemptive context switches per path (default 2)
+	MinMaxIte        bool               `json:"minmax_ite"`          // math mode: encode min/max/abs as ite terms instead of forking (linear harnesses)
+	UnwindViolation  bool               `json:"unwind_is_violation"` // termination is part of the property (C14)
 
 	Bounds    map[string]int `json:"-"`
 	TimeoutMs int            `json:"-"`
@@ -74,6 +77,9 @@ type Report struct {
 	UnknownBranches int
 	AssertQ         [3]int
 	AssertSyntactic int
+	PoisonValues    int // NaN/Inf values produced by a division by zero and carried as poison (nan_poison)
+	PolyDecided     int // comparisons settled by the exact polynomial/interval layer (realiv.go)
+	PolyConfirmed   int // of those, cross-checked against the solver
 	AssertBatched   int
 	AssertsSeen     map[string]int
 	Violations      []*Violation
@@ -177,6 +183,7 @@ func (it *Interp) fillFixed(v *Violation) {
 // literals, intervals) are collected and discharged together at the end of the path by one query
 // OR_i (pc_i AND NOT c_i); the path continues under the assumption that the assertion holds.
 func (it *Interp) assert(c *Term, label string) {
+	it.poisonGuard(c, "an assertion")
 	r := it.rep
 	r.AssertsSeen[label]++
 	if v, ok := it.lookupKnown(c); ok && v {
